@@ -47,7 +47,7 @@ def verify_theory(T, repo, timeout_s=60, only=None, canaries=True):
   wall = smt.discharge(allo, timeout_s=timeout_s)
   # canaries: only `proved` (= the exit is unreachable/vacuous) is a failure, so a
   # short in-process budget suffices; sat/unknown both mean "not refuted".
-  wall += smt.discharge(cano, timeout_s=1, first_ms=300, phase2=False)
+  wall += smt.discharge(cano, timeout_s=1, first_ms=300, phase2=False, single=True)
   if lemma_obls:
     per_fn.insert(0, dict(contract=_SpecLemmas(T), obligations=lemma_obls, paths=1, exits=1, gen_s=0.0))
   return per_fn, canary_obls, wall, ex
